@@ -25,7 +25,19 @@ RULE = ('(function, value, incoming, encoding, errors, locale) tuples: values ar
         'letter case and alias spelling, plus unknown names; errors in strict/ignore/replace; sys.stdin.encoding and '
         'sys.getdefaultencoding() scripted.  A case is non-trivial when the call got past the type dispatch and the str '
         'pass-through, i.e. a codec (or the slug pipeline) really ran on a non-empty value, on both sides; distinct by '
-        'the full request line.')
+        'the full request line.'
+        ' Every call goes through a CALL FORM of the pinned public signature (written into this module as data: '
+        'safe_decode(text, incoming=None, errors="strict"), safe_encode(text, incoming=None, encoding="utf-8", '
+        'errors="strict"), to_utf8(text), to_slug(value, incoming=None, errors="strict")): each parameter positional, '
+        'by keyword (every keyword order) or omitted; an omitted parameter has the pinned default as its logical '
+        'value and the model applies its own pinned default. How two codec names are judged to AGREE (bytes returned '
+        'untouched): exactly when they are equal after lower-casing, as the unchanged code compares them and the model '
+        'follows; two aliases of one codec (utf8 / utf-8 / U8, latin1 / latin-1 / iso-8859-1) do NOT agree and the '
+        'bytes are transcoded (decoded with incoming, UTF-8 on a decoding error, encoded with encoding), which differs '
+        'from "untouched" only on bytes that are ill-formed in the codec - such bytes are generated on purpose, with a '
+        'default on one side (encoding omitted; incoming omitted and taken from sys.stdin.encoding / '
+        'sys.getdefaultencoding()) against every spelling on the other side.')
+
 TRUSTED_BASE = [
     'Lean 4 kernel; axioms audited per theorem (subset of propext, Classical.choice, Quot.sound)',
     'hand-written models OsloModel/Encode.lean and OsloModel/Slug.lean, tied to encodeutils / strutils.to_slug by this '
@@ -414,23 +426,105 @@ def canon(r):
     return 'other:' + type(r).__name__
 
 
+# The pinned public signatures (as on the clean tree; never read from the tree under test):
+# name of the required parameter, then (optional parameter, default) in declaration order.
+SIGNATURES = {
+    'safe_decode': ('text', [('incoming', None), ('errors', 'strict')]),
+    'safe_encode': ('text', [('incoming', None), ('encoding', 'utf-8'), ('errors', 'strict')]),
+    'to_utf8': ('text', []),
+    'to_slug': ('value', [('incoming', None), ('errors', 'strict')]),
+}
+
+
+def all_forms(fn):
+    """Every legal call form: a list of [parameter, 'pos'|'kw'] in the order the arguments are
+    written; parameters not listed are omitted.  Positional arguments are a prefix of the
+    declaration order; keyword arguments in every order."""
+    import itertools
+    required, optional = SIGNATURES[fn]
+    names = [n for n, _ in optional]
+    out = []
+    for req_mode in ('pos', 'kw'):
+        for npos in range(0, (len(names) if req_mode == 'pos' else 0) + 1):
+            head = ([[required, 'pos']] if req_mode == 'pos' else []) + [[n, 'pos'] for n in names[:npos]]
+            rest = names[npos:]
+            for mask in itertools.product((False, True), repeat=len(rest)):
+                kws = ([required] if req_mode == 'kw' else []) + [n for n, m in zip(rest, mask) if m]
+                for perm in itertools.permutations(kws):
+                    out.append(head + [[n, 'kw'] for n in perm])
+    return out
+
+
+FORMS = {fn: all_forms(fn) for fn in SIGNATURES}
+
+
+def default_form(fn):
+    """everything passed positionally (the only form used before call forms were generated)"""
+    required, optional = SIGNATURES[fn]
+    return [[required, 'pos']] + [[n, 'pos'] for n, _ in optional]
+
+
+def omitted(case, fn=None):
+    """optional parameters the call form does not pass"""
+    form = case.get('form')
+    if not form:
+        return []
+    passed = {n for n, _ in form}
+    return [n for n, _ in SIGNATURES[fn or case['fn']][1] if n not in passed]
+
+
+def with_form(case, form):
+    """the case called in the given form; an omitted parameter's logical value is the pinned default"""
+    c = dict(case, form=form)
+    passed = {n for n, _ in form}
+    for n, d in SIGNATURES[case['fn']][1]:
+        if n not in passed:
+            c[n] = d
+    return c
+
+
+def call_args(case, v):
+    form = case.get('form') or default_form(case['fn'])
+    required = SIGNATURES[case['fn']][0]
+    args, kwargs = [], {}
+    for n, mode in form:
+        a = v if n == required else case[n]
+        if mode == 'pos':
+            args.append(a)
+        else:
+            kwargs[n] = a
+    return args, kwargs
+
+
+def show_call(case):
+    form = case.get('form') or default_form(case['fn'])
+    required = SIGNATURES[case['fn']][0]
+    what = (case.get('cls') or {'s': 'str', 'b': 'bytes'}.get(case['vk'])) if case['vk'] != 'o' else case['val']
+    parts = []
+    for n, mode in form:
+        a = '<%s>' % what if n == required else repr(case[n])
+        parts.append(a if mode == 'pos' else '%s=%s' % (n, a))
+    return '%s(%s)' % (case['fn'], ', '.join(parts))
+
+
 def call_impl(case):
-    """Run the real function; returns (canonical outcome, raw result or exception)."""
+    """Run the real function in the case's call form; returns (canonical outcome, raw result or
+    exception).  A TypeError raised by the call itself (the arguments do not bind to the
+    signature) is reported as err:CallTypeError, never confused with the helper's own TypeError."""
     from oslo_utils import encodeutils, strutils
     v = case_value(case)
     fn = case['fn']
+    f = {'safe_decode': encodeutils.safe_decode, 'safe_encode': encodeutils.safe_encode,
+         'to_utf8': encodeutils.to_utf8, 'to_slug': strutils.to_slug}[fn]
+    args, kwargs = call_args(case, v)
     with locale(case['stdin'], case['default']):
         try:
-            if fn == 'safe_decode':
-                r = encodeutils.safe_decode(v, case['incoming'], case['errors'])
-            elif fn == 'safe_encode':
-                r = encodeutils.safe_encode(v, case['incoming'], case['encoding'], case['errors'])
-            elif fn == 'to_utf8':
-                r = encodeutils.to_utf8(v)
-            elif fn == 'to_slug':
-                r = strutils.to_slug(v, case['incoming'], case['errors'])
-            else:
-                raise KeyError(fn)
+            r = f(*args, **kwargs)
+        except TypeError as e:
+            tb = e.__traceback__
+            if tb is not None and tb.tb_next is None:
+                return 'err:CallTypeError', e
+            return 'err:TypeError', e
         except Exception as e:
             return 'err:' + type(e).__name__, e
     return canon(r), r
@@ -446,20 +540,25 @@ def front_end(t):
 
 
 def model_line(case):
-    """Request line for the Lean driver."""
+    """Request line for the Lean driver.  A parameter the call form omits is sent as `D`: the model
+    applies its own pinned default (OsloModel/Encode.lean: defaultIncoming/Encoding/Errors)."""
     fn, vk = case['fn'], case['vk']
     val = case['val'] if vk in 'sb' else '-'
     if case.get('cls') and vk in 'sb':
         vk = vk.upper()                 # instance of a proper subclass: Cls.sub in the model
     env = [opt_name(stdin_enc(case['stdin'])), hexs(case['default'])]
+    om = omitted(case, fn)
+    inc = 'D' if 'incoming' in om else opt_name(case['incoming'])
+    pol = 'D' if 'errors' in om else case['errors']
     if fn == 'safe_decode':
-        return req('dec', vk, val, opt_name(case['incoming']), case['errors'], *env)
+        return req('dec', vk, val, inc, pol, *env)
     if fn == 'safe_encode':
-        return req('enc', vk, val, opt_name(case['incoming']), hexs(case['encoding']), case['errors'], *env)
+        enc = 'D' if 'encoding' in om else hexs(case['encoding'])
+        return req('enc', vk, val, inc, enc, pol, *env)
     if fn == 'to_utf8':
         return req('utf8', vk, val)
     if fn == 'to_slug':
-        return req('slug', vk, val, opt_name(case['incoming']), case['errors'], *env)
+        return req('slug', vk, val, inc, pol, *env)
     raise KeyError(fn)
 
 
@@ -644,8 +743,24 @@ def gen_case(rng, namegen, pool, fn=None, ascii_text=False):
     encoding = namegen(rng)
     if fn == 'safe_encode' and incoming and rng.random() < 0.3:
         encoding = recase(rng, incoming)          # the "same codec" branch, in another letter case
-    return {'fn': fn, 'vk': vk, 'val': val, 'cls': cls, 'incoming': incoming, 'encoding': encoding,
+    case = {'fn': fn, 'vk': vk, 'val': val, 'cls': cls, 'incoming': incoming, 'encoding': encoding,
             'errors': rng.choice(POLICIES), 'stdin': stdin, 'default': default}
+    if rng.random() < 0.3:
+        return case                       # everything positional
+    case = with_form(case, rng.choice(FORMS[fn]))
+    om = omitted(case)
+    if fn == 'safe_encode' and vk == 'b':
+        # a default on one side against an explicit spelling (or the locale) on the other side
+        if 'encoding' in om and 'incoming' not in om and rng.random() < 0.5:
+            case['incoming'] = recase(rng, rng.choice(MODEL_NAMES['utf-8']))
+        if 'incoming' in om and rng.random() < 0.5:
+            fam = [l for l in MODEL_NAMES.values() if case['encoding'].lower() in [a.lower() for a in l]]
+            name = recase(rng, rng.choice(fam[0] if fam else MODEL_NAMES['utf-8']))
+            if rng.random() < 0.7:
+                case['stdin'] = ['attr', name]
+            else:
+                case['stdin'], case['default'] = ['none', None], name
+    return case
 
 
 FIXED_CASES = [
@@ -690,6 +805,63 @@ def fixed_cases():
                            'errors': 'strict', 'stdin': ['none', None], 'default': 'utf-8'}
 
 
+def spellings(name):
+    return sorted({name, name.upper(), name.title(), name.swapcase()})
+
+
+ILL = {'utf-8': [b'\xff\xfe', b'caf\xe9', b'\xc3', b'\xe2\x82 ok'], 'ascii': [b'caf\xe9', b'\xff'],
+       'latin-1': [b'caf\xe9', b'\xff\xfe']}
+
+
+def signature_cases():
+    """The pinned signatures: every call form of every helper; and, for safe_encode on bytes, a
+    default on one side against every spelling of the same codec on the other side (explicit, from
+    sys.stdin.encoding, from sys.getdefaultencoding()) with bytes that are ill-formed in it."""
+    base = {'cls': None, 'stdin': ['none', None], 'default': 'utf-8'}
+    # (a) every call form, with logical arguments that differ per parameter
+    for fn in sorted(SIGNATURES):
+        for form in FORMS[fn]:
+            for vk, val in (('s', hexs('Caf\xe9  Ol\xe9')), ('b', hexb('Caf\xe9'.encode('utf-8'))),
+                            ('b', hexb('Caf\xe9'.encode('latin-1'))), ('o', 'None')):
+                for inc, enc, pol in (('utf-8', 'latin-1', 'strict'), ('ascii', 'utf-8', 'replace'),
+                                      ('latin-1', 'ascii', 'ignore')):
+                    yield with_form(dict(base, fn=fn, vk=vk, val=val, incoming=inc, encoding=enc, errors=pol), form)
+    # (b) safe_encode(bytes): encoding omitted, incoming spelled in every way / taken from the locale
+    enc_omitted = [f for f in FORMS['safe_encode'] if 'encoding' not in [n for n, _ in f]]
+    inc_passed = [f for f in enc_omitted if 'incoming' in [n for n, _ in f]]
+    inc_omitted = [f for f in enc_omitted if 'incoming' not in [n for n, _ in f]]
+    k = 0
+    for fam, aliases in sorted(MODEL_NAMES.items()):
+        for alias in aliases:
+            for name in spellings(alias):
+                for data in ILL[fam] + [b'plain']:
+                    for pol in POLICIES:
+                        k += 1
+                        c = dict(base, fn='safe_encode', vk='b', val=hexb(data), incoming=name, encoding='utf-8',
+                                 errors=pol)
+                        yield with_form(c, inc_passed[k % len(inc_passed)])
+                        f = inc_omitted[k % len(inc_omitted)]
+                        yield with_form(dict(c, stdin=['attr', name]), f)
+                        yield with_form(dict(c, stdin=['attr', None], default=name), f)
+    # (c) both names explicit: every pair of spellings inside a family (same codec, names agree or not)
+    for fam, aliases in sorted(MODEL_NAMES.items()):
+        names = aliases + [aliases[0].upper(), aliases[-1].title()]
+        for a in names:
+            for b in names:
+                for pol in POLICIES:
+                    yield dict(base, fn='safe_encode', vk='b', val=hexb(ILL[fam][0]), incoming=a, encoding=b,
+                               errors=pol)
+    # (d) safe_decode / to_slug with everything omitted, the codec coming from the locale
+    for fn in ('safe_decode', 'to_slug'):
+        required = SIGNATURES[fn][0]
+        for name in ['utf-8', 'UTF8', 'ascii', 'Latin-1', 'no-such-codec']:
+            for data in (b'caf\xe9  X', b'caf\xc3\xa9  X', b'\xff'):
+                for form in ([[required, 'pos']], [[required, 'kw']]):
+                    c = dict(base, fn=fn, vk='b', val=hexb(data), incoming=None, encoding='utf-8', errors='strict')
+                    yield with_form(dict(c, stdin=['attr', name]), form)
+                    yield with_form(dict(c, default=name), form)
+
+
 # ---------------------------------------------------------------------------
 # correspondence: model (Lean driver) vs implementation
 
@@ -706,7 +878,7 @@ def correspondence(ctx):
     rng = ctx.rng
     pool = ['utf-8', 'utf-8', 'latin-1', 'ascii']
     n = 40000 if ctx.quick else 400000
-    cases = list(fixed_cases())
+    cases = list(fixed_cases()) + list(signature_cases())
     for _ in range(n):
         cases.append(gen_case(rng, gen_model_name, pool, ascii_text=rng.random() < 0.5))
     cases = [c for c in cases if in_model_domain(c)]
@@ -718,6 +890,9 @@ def correspondence(ctx):
         ctx.count('corr/%s/%s' % (case['fn'], case['vk']))
         if case.get('cls'):
             ctx.count('corr-class/%s/%s' % (case['fn'], case['cls']))
+        if case.get('form'):
+            ctx.count('corr-form/%s/%s/omitted:%s' % (
+                case['fn'], ''.join(m[0] for _, m in case['form']), ','.join(omitted(case)) or '-'))
         ctx.count('corr-branch/' + branch_of(case))
         ctx.count('corr-out/' + (impl if impl.startswith('err:') else impl.split(':')[0]))
         v = case_content(case)
@@ -800,6 +975,9 @@ def oracle(case, note=None):
     errors = case['errors']
     resolved = case['incoming'] or (stdin_enc(case['stdin']) or case['default'])
     got, raw = call_impl(case)
+    if got == 'err:CallTypeError':
+        return ('the call %s does not bind to the signature (%s); the pinned signature %s(%s) accepts this form'
+                % (show_call(case), raw, fn, ', '.join([SIGNATURES[fn][0]] + ['%s=%r' % nd for nd in SIGNATURES[fn][1]])))
     if vk == 'o':
         return None if got == 'err:TypeError' else '%s(%s) gave %s, expected TypeError' % (fn, case['val'], got)
     if got == 'err:TypeError':
@@ -913,7 +1091,16 @@ def shrink_case(case):
         except Exception:
             return False
     small = common.shrink_list(items, still) if len(items) > 1 else items
-    return dict(case, val=mk(small))
+    out = dict(case, val=mk(small))
+    if out.get('form'):
+        # does it also fail with every (logical) argument spelled out positionally?  then show that
+        explicit = {k: v for k, v in out.items() if k != 'form'}
+        try:
+            if oracle(explicit) is not None:
+                out = explicit
+        except Exception:
+            pass
+    return out
 
 
 def search(ctx, seeds, full=False):
@@ -921,7 +1108,7 @@ def search(ctx, seeds, full=False):
     pool = ['utf-8', 'utf-8', 'latin-1', 'ascii', 'utf-16', 'cp1252', 'shift_jis'] + EXTRA_CODECS
     n = (100000 if full else 40000) if ctx.quick else (600000 if full else 400000)
     todo = [s for s in seeds[:300] if isinstance(s, dict) and 'fn' in s]
-    todo += list(fixed_cases())
+    todo += list(fixed_cases()) + list(signature_cases())
 
     def gen():
         for i in range(n):
@@ -944,7 +1131,7 @@ def search(ctx, seeds, full=False):
                 continue
             kinds.add(kind)
             small = shrink_case(case)
-            fails.append(Failure(small, {'kind': kind, 'what': oracle(small) or why}))
+            fails.append(Failure(small, {'kind': kind, 'call': show_call(small), 'what': oracle(small) or why}))
             if len(fails) >= 5:
                 break
     return fails
@@ -957,6 +1144,7 @@ def replay(ctx, payload):
         print(payload.get('no_longer_checks'))
         return 0
     print('case          :', case)
+    print('call          :', show_call(case))
     if case['vk'] != 'o':
         print('value         : %s with content %r' % (case.get('cls') or 'exact', case_content(case)))
     impl, _ = call_impl(case)
